@@ -88,6 +88,21 @@ func runWriter(c *core.Ctx, kind string, workers int, yield bool) {
 	}
 	recs := wrx.Recs(c.Rng, itx.Sum(sizes), func() int { return []int{1, 5, 59, 60, 61, 130}[c.Rng.Intn(6)] })
 	parts := itx.Partition(recs, sizes)
+	if (kind == "fasta" || kind == "fastq") && c.Idx%6 == 4 && nb > 0 {
+		// --skip-empty: records without sequence (GenBank entries without ORIGIN give such records)
+		// are left out; one whole batch is made of them, a few others hold one
+		wrx.SkipEmpty = true
+		defer func() { wrx.SkipEmpty = false }()
+		whole := c.Rng.Intn(nb)
+		for i := range parts {
+			for j := range parts[i] {
+				if i == whole || c.Rng.Intn(12) == 0 {
+					parts[i][j].Seq = ""
+				}
+			}
+		}
+		c.Count("cases_with_skip_empty", 1)
+	}
 	compressed := c.Rng.Intn(4) == 0
 	closeFile := true
 	if (kind == "json" || kind == "csv") && c.Rng.Intn(3) == 0 {
@@ -216,7 +231,16 @@ func runWriter(c *core.Ctx, kind string, workers int, yield bool) {
 			} else {
 				parsed, err = gen.ParseFastq(out)
 			}
-			if err != nil || itx.CompareSeq(gen.IDsOf(parsed), itx.IDs(recs)) != "" {
+			wantIDs := itx.IDs(recs)
+			if wrx.SkipEmpty {
+				wantIDs = wantIDs[:0:0]
+				for _, r := range recs {
+					if r.Seq != "" {
+						wantIDs = append(wantIDs, r.ID)
+					}
+				}
+			}
+			if err != nil || itx.CompareSeq(gen.IDsOf(parsed), wantIDs) != "" {
 				det["got"] = clip(out)
 				c.Violate("records:"+cls, "the output, re-parsed, is not the record list in order", det)
 			}
@@ -448,7 +472,7 @@ func init() {
 		ID:    "C04",
 		Level: "exploration",
 		Rule: "each history = one real writer (WriteFasta/WriteFastq/WriteJSON/WriteCSV over CompressStream) handed a recording sink and an iterator fed with a partition of records into 0..6 batches (all permutations up to 4 (quick) / 5 (thorough) batches, random up to 27), subsets of empty batches, plain or gzip, closing or not; with ONE formatting worker the arrival order at the writer goroutine is the fed permutation (confirmed per run by the writer.arrival events), with 2-8 workers + yields the scheduler makes the order. " +
-			"Added later: the *ToFile entry points over existing (shorter, longer, previous output) files and in append mode, CSV automatic columns, 300-1100 batches with one batch overtaken by 255 or more others, four batches of 2 MiB (quick) / 24 MiB (thorough) records arriving with the first one last. One case in five at the debug log level (what is logged must not change what is written). One record in three carries a text attribute that a JSON writer has to escape (backslash-u, control characters, quotes, <>&, U+2028); it must come back from the JSON output as given. " +
+			"Added later: the *ToFile entry points over existing (shorter, longer, previous output) files and in append mode, CSV automatic columns, 300-1100 batches with one batch overtaken by 255 or more others, four batches of 2 MiB (quick) / 24 MiB (thorough) records arriving with the first one last. One case in five at the debug log level (what is logged must not change what is written). One record in three carries a text attribute that a JSON writer has to escape (backslash-u, control characters, quotes, <>&, U+2028); it must come back from the JSON output as given. tofile: file names beyond ASCII / Latin-1, paired reads written to two files (each side compared with its records written alone), compressed outputs compared after inflation. FASTA / FASTQ writers with the skip-empty option on batches made only of records without sequence. " +
 			"distinct_nontrivial = distinct (writer, partition, arrival order observed at the writer, compression, close mode) with an out-of-order arrival or an empty batch",
 		Assume:        []string{"encoding/json and encoding/csv decide well-formedness", "FormatFastaBatch/FormatFastqBatch of one batch is the reference rendering of that batch (C02 checks the rendering itself)"},
 		Subs:          subs,
